@@ -287,8 +287,8 @@ func runC03(c *Ctx) {
 
 // c03Justified: residual index expressions accepted with a reason (checked by reading).
 var c03Justified = []bceJustified{
-	{"io/phylip.(*Parser).Parse", "seqs[i]", "the first loop appends exactly one name and one buffer per i in [0, nbseq) or returns an error; later loops use i < nbseq = len(seqs); the last loop ranges over names with len(names) == len(seqs)"},
-	{"io/phylip.(*Parser).Parse", "seqs[0]", "reached only after the first loop completed nbseq >= 1 iterations (nbseq == 0 and nbseq < 0 are rejected before), each of which appended one buffer"},
+
+
 	{"align.(*PartitionSet).AddRange", "ps.partitions[i]", "proved by rule table-index-safe (linear bounds with the struct invariant length == len(partitions))"},
 }
 
